@@ -8648,6 +8648,11 @@ type chanCloseOpt struct {
 	// omitRemoteOutput is set if the remote party asked for a closing
 	// transaction that doesn't carry its own output.
 	omitRemoteOutput bool
+
+	// scriptDustLimits is set if an output of the closing transaction is
+	// to be kept or trimmed based on the dust limit of its delivery script
+	// rather than on the dust limits of the channel.
+	scriptDustLimits bool
 }
 
 // ChanCloseOpt is a closure type that cen be used to modify the set of default
@@ -8717,6 +8722,32 @@ func WithOmittedRemoteCloseOutput() ChanCloseOpt {
 	return func(opts *chanCloseOpt) {
 		opts.omitRemoteOutput = true
 	}
+}
+
+// WithScriptDustLimits can be used to trim the outputs of the closing
+// transaction based on the dust limit of each party's delivery script
+// (DustLimitForSize), rather than on the dust limits of the channel. This is
+// used in the RBF flow, which decides which outputs a signature covers based
+// on the delivery scripts alone.
+func WithScriptDustLimits() ChanCloseOpt {
+	return func(opts *chanCloseOpt) {
+		opts.scriptDustLimits = true
+	}
+}
+
+// coopCloseDustLimits returns the local and remote dust limits that decide if
+// an output makes it into the co-op close transaction.
+func (lc *LightningChannel) coopCloseDustLimits(opts *chanCloseOpt,
+	localDeliveryScript, remoteDeliveryScript []byte) (btcutil.Amount,
+	btcutil.Amount) {
+
+	if opts.scriptDustLimits {
+		return DustLimitForSize(len(localDeliveryScript)),
+			DustLimitForSize(len(remoteDeliveryScript))
+	}
+
+	return lc.channelState.LocalChanCfg.DustLimit,
+		lc.channelState.RemoteChanCfg.DustLimit
 }
 
 // CreateCloseProposal is used by both parties in a cooperative channel close
@@ -8797,10 +8828,13 @@ func (lc *LightningChannel) CreateCloseProposal(proposedFee btcutil.Amount,
 		))
 	})
 
+	localDust, remoteDust := lc.coopCloseDustLimits(
+		opts, localDeliveryScript, remoteDeliveryScript,
+	)
 	closeTx, err := CreateCooperativeCloseTx(
-		fundingTxIn(lc.channelState), lc.channelState.LocalChanCfg.DustLimit,
-		lc.channelState.RemoteChanCfg.DustLimit, ourBalance, theirBalance,
-		localDeliveryScript, remoteDeliveryScript, closeTxOpts...,
+		fundingTxIn(lc.channelState), localDust, remoteDust,
+		ourBalance, theirBalance, localDeliveryScript,
+		remoteDeliveryScript, closeTxOpts...,
 	)
 	if err != nil {
 		return nil, nil, 0, err
@@ -8919,10 +8953,13 @@ func (lc *LightningChannel) CompleteCooperativeClose(
 	// Create the transaction used to return the current settled balance
 	// on this active channel back to both parties. In this current model,
 	// the initiator pays full fees for the cooperative close transaction.
+	localDust, remoteDust := lc.coopCloseDustLimits(
+		opts, localDeliveryScript, remoteDeliveryScript,
+	)
 	closeTx, err := CreateCooperativeCloseTx(
-		fundingTxIn(lc.channelState), lc.channelState.LocalChanCfg.DustLimit,
-		lc.channelState.RemoteChanCfg.DustLimit, ourBalance, theirBalance,
-		localDeliveryScript, remoteDeliveryScript, closeTxOpts...,
+		fundingTxIn(lc.channelState), localDust, remoteDust,
+		ourBalance, theirBalance, localDeliveryScript,
+		remoteDeliveryScript, closeTxOpts...,
 	)
 	if err != nil {
 		return nil, 0, err
